@@ -104,7 +104,9 @@ def gen_object(rng, idx):
         if kind == "VEVENT":
             e = rng.random()
             if e < 0.4:
-                dur = rng.choice([1, 3600, DAY, DAY + 3600, 2 * DAY]) if isdt else rng.choice([DAY, 2 * DAY])
+                # (DTEND equal to DTSTART: a zero-length event written with DTEND - RFC 4791 9.9 line 1 then asks start < DTEND and
+                # end > DTSTART, so a range beginning exactly there does not contain it)
+                dur = rng.choice([0, 1, 3600, DAY, DAY + 3600, 2 * DAY]) if isdt else rng.choice([DAY, 2 * DAY])
                 lines.append(start_line("DTEND", s + dur, isdt))
                 o.update(end="dtend", dur=dur)
             elif e < 0.75:
@@ -584,6 +586,33 @@ def f27_witness(ctx):
                       ["/u/cal/f27.ics"], got, finding="F27")
 
 
+F37_TEXT = ("BEGIN:VCALENDAR\r\nVERSION:2.0\r\nPRODID:-//verif//EN\r\nBEGIN:VEVENT\r\nUID:f37\r\nDTSTAMP:20240101T000000Z\r\n"
+            "DTSTART:20240307T220001Z\r\nDTEND:20240307T220001Z\r\nRRULE:FREQ=WEEKLY;COUNT=3\r\nSUMMARY:x\r\nEND:VEVENT\r\nEND:VCALENDAR\r\n")
+
+
+def f37_witness(ctx):
+    """F37 (fixed): a series of events written with DTEND = DTSTART and a requested range that begins exactly at its first occurrence
+    (or ends exactly at its last): RFC 4791 9.9 (`start < DTEND and end > DTSTART`) does not match, the pre-selection said it does"""
+    s0 = int(dtm.datetime(2024, 3, 7, 22, 0, 1, tzinfo=dtm.timezone.utc).timestamp())
+    with App({"auth": {"type": "none"}}) as app:
+        app.request("MKCALENDAR", "/u/cal/", login="u:p")
+        if app.request("PUT", "/u/cal/f37.ics", F37_TEXT, login="u:p")[0] != 201:
+            return
+        for fs, fe in ((s0, s0 + 1), (s0 + 10 * DAY, s0 + 14 * DAY), (s0, s0 + 14 * DAY)):
+            res = {}
+            for extra in ("none", "after"):
+                body = ('<?xml version="1.0"?><C:calendar-query %s><D:prop><D:getetag/></D:prop>%s</C:calendar-query>' % (NS, filter_xml("VEVENT", fs, fe, extra)))
+                st, _, text = app.request("REPORT", "/u/cal/", body, login="u:p")
+                res[extra] = sorted(parse_multistatus(text)[0]) if st == 207 else st
+            # occurrences at s0, s0 + 7 d, s0 + 14 d, each taking no time
+            exp = ["/u/cal/f37.ics"] if any(fs < t and fe > t for t in (s0, s0 + 7 * DAY, s0 + 14 * DAY)) else []
+            ctx.case("witness:F37", sample={"range": [fs, fe], "results": res, "expected": exp}, key=["F37", fs, fe], nontrivial=True)
+            if res["none"] != exp or res["after"] != exp:
+                ctx.violation("a series of events with DTEND = DTSTART and a range sharing an end point with its enclosing range: the plain query returns %s, "
+                              "with an always-true condition %s, RFC 4791 9.9 gives %s" % (res["none"], res["after"], exp),
+                              {"object": F37_TEXT, "range": [fs, fe]}, exp, res, finding="F37")
+
+
 def filter_structure_level(ctx):
     """random filter trees (several filter elements, sibling comp-filters, prop-filters that hold or not, is-not-defined, unknown
     elements, up to three levels, 0-2 time-ranges anywhere) against the model of `simplify_prefilters` and `comp_match`
@@ -690,6 +719,7 @@ def filter_structure_level(ctx):
 def run(ctx):
     known_witnesses(ctx)
     f27_witness(ctx)
+    f37_witness(ctx)
     filter_structure_level(ctx)
     ctx.extra["rule"] = ("VEVENT/VTODO/VJOURNAL from the grammar (DATE or UTC start; DTEND/DURATION/neither; DAILY|WEEKLY x INTERVAL x "
                          "COUNT|UNTIL|unbounded; EXDATE; the eight VTODO combinations) x ranges whose ends sit at, 1 s before and 1 s after "
